@@ -28,7 +28,9 @@ const (
 	fnFromMap       = "pkg/variables.FromMap"
 )
 
-// runnerRoles are the functions of pkg/runner found by what they do.
+// runnerRoles are the places of pkg/runner found by what they do. A role is
+// the function that *contains* the characteristic instruction — a helper or
+// TaskRunner.Run itself when the helper was inlined.
 type runnerRoles struct {
 	c       *an.Ctx
 	p       *an.Prog
@@ -36,41 +38,24 @@ type runnerRoles struct {
 	cancel  *ssa.Function
 	finish  *ssa.Function
 	task    *ssa.Parameter // Run's task
-	execute *ssa.Function  // walks the job list
+	scope   []*ssa.Function // pkg/runner functions reachable from Run (Run included)
+	execute *ssa.Function   // contains the job walk
 	jobLoop *an.Loop
-	before  *ssa.Function // ranges over t.Before
-	after   *ssa.Function // ranges over t.After
-	cond    *ssa.Function // compiles t.Condition
-	ctxFn   *ssa.Function // calls Up then Before
-	store   *ssa.Function // writes runner env/variables from the task log
-	// call sites in Run
-	callOf map[*ssa.Function]*ssa.Call
-	compileCall, startCall, newOutputCall *ssa.Call
-	ok bool
+	ctxFn   *ssa.Function // contains the call of ExecutionContext.Up
+	store   *ssa.Function // contains Set on TaskRunner.env
+	compileCall   *ssa.Call // the CompileTask call
+	newOutputCall *ssa.Call
+	startCall     *ssa.Call
+	ok            bool
 }
 
 func isExecCall(in ssa.Instruction) (*ssa.CallCommon, bool) {
 	return an.IsCallTo(in, fnExecIface, fnExecDefault)
 }
 
-// rangesOverTaskField finds a loop of fn ranging over <task>.<field>.
-func rangesOverTaskField(fn *ssa.Function, field string) *an.Loop {
-	for _, l := range an.Loops(fn) {
-		op := l.RangeOperand()
-		if op == nil {
-			continue
-		}
-		ap := an.AccessPath(op)
-		if ap.LastField() == field && an.TypeIs(ap.Base.Type(), "pkg/task", "Task") {
-			return l
-		}
-	}
-	return nil
-}
-
 func resolveRunner(c *an.Ctx, rule string) *runnerRoles {
 	p := c.P
-	r := &runnerRoles{c: c, p: p, callOf: map[*ssa.Function]*ssa.Call{}}
+	r := &runnerRoles{c: c, p: p}
 	r.run = p.Func("pkg/runner", "TaskRunner", "Run")
 	r.cancel = p.Func("pkg/runner", "TaskRunner", "Cancel")
 	r.finish = p.Func("pkg/runner", "TaskRunner", "Finish")
@@ -86,31 +71,13 @@ func resolveRunner(c *an.Ctx, rule string) *runnerRoles {
 	reach := p.Reach([]*ssa.Function{r.run}, func(e an.CallEdge) bool {
 		return an.InModule(e.Callee) && inPkgs("pkg/runner")(e.Callee)
 	})
-	var fns []*ssa.Function
 	for f := range reach {
-		fns = append(fns, f)
+		r.scope = append(r.scope, f)
 	}
-	sort.Slice(fns, func(i, j int) bool { return fns[i].String() < fns[j].String() })
-	for _, f := range fns {
-		if f == r.run || f.Parent() != nil {
-			continue
-		}
-		if l := rangesOverTaskField(f, "Before"); l != nil && r.before == nil {
-			r.before = f
-		}
-		if l := rangesOverTaskField(f, "After"); l != nil && r.after == nil {
-			r.after = f
-		}
-		// job walk: a loop whose header φ advances through .Next and whose body calls Execute
+	sort.Slice(r.scope, func(i, j int) bool { return r.scope[i].String() < r.scope[j].String() })
+	for _, f := range r.scope {
+		// job walk: a loop whose header φ advances through .Next and whose body (or a helper it calls) executes
 		for _, l := range an.Loops(f) {
-			hasExec := false
-			for b := range l.Blocks {
-				for _, in := range b.Instrs {
-					if _, ok := isExecCall(in); ok {
-						hasExec = true
-					}
-				}
-			}
 			adv := false
 			for _, in := range l.Header.Instrs {
 				phi, ok := in.(*ssa.Phi)
@@ -123,70 +90,46 @@ func resolveRunner(c *an.Ctx, rule string) *runnerRoles {
 					}
 				}
 			}
-			if hasExec && adv {
+			if adv {
 				r.execute, r.jobLoop = f, l
 			}
 		}
-		// condition: compiles t.Condition
-		for _, ci := range an.CallsIn(f, fnCompileCmd) {
-			args := ci.Common().Args
-			if len(args) > 1 && an.AccessPath(args[1]).LastField() == "Condition" {
-				r.cond = f
+		an.EachInstr(f, func(in ssa.Instruction) {
+			call, ok := in.(*ssa.Call)
+			if !ok {
+				return
 			}
-		}
-		if len(an.CallsIn(f, fnCtxUp)) > 0 && len(an.CallsIn(f, fnCtxBefore)) > 0 {
-			r.ctxFn = f
-		}
-		// store: Set on TaskRunner.env with a value derived from Task.Log.Stdout
-		for _, ci := range an.CallsIn(f, fnSet) {
-			recv := an.AccessPath(ci.Common().Value)
-			if recv.LastField() == "env" && an.TypeIs(recv.Base.Type(), "pkg/runner", "TaskRunner") {
-				r.store = f
+			switch an.ShortCallee(&call.Call) {
+			case fnCtxUp:
+				if an.Short(f) != fnCtxBefore {
+					r.ctxFn = f
+				}
+			case fnCompileTask:
+				r.compileCall = call
+			case fnNewTaskOutput:
+				r.newOutputCall = call
+			case fnOutStart:
+				r.startCall = call
+			case fnSet:
+				if an.FieldProv(call.Call.Value) == "TaskRunner.env" {
+					r.store = f
+				}
 			}
-		}
+		})
 	}
 	missing := ""
-	for name, f := range map[string]*ssa.Function{"job walk": r.execute, "before hooks": r.before, "after hooks": r.after, "condition": r.cond, "context resolution": r.ctxFn, "output store": r.store} {
+	for name, f := range map[string]*ssa.Function{"job walk": r.execute, "context resolution": r.ctxFn, "output store": r.store} {
 		if f == nil {
 			missing += " " + name
 		} else {
 			c.Anchor(name, an.Short(f))
 		}
 	}
-	if missing != "" {
-		c.Und(rule, "runner:roles", r.run.Pos(), "cannot find by role in pkg/runner:%s", missing)
-		return r
-	}
-	// call sites in Run
-	an.EachInstr(r.run, func(in ssa.Instruction) {
-		call, ok := in.(*ssa.Call)
-		if !ok {
-			return
-		}
-		for _, callee := range p.Callees(&call.Call) {
-			switch callee {
-			case r.execute, r.before, r.after, r.cond, r.ctxFn, r.store:
-				r.callOf[callee] = call
-			}
-		}
-		if _, ok := an.IsCallTo(in, fnCompileTask); ok {
-			r.compileCall = call
-		}
-		if _, ok := an.IsCallTo(in, fnOutStart); ok {
-			r.startCall = call
-		}
-		if _, ok := an.IsCallTo(in, fnNewTaskOutput); ok {
-			r.newOutputCall = call
-		}
-	})
-	for name, f := range map[string]*ssa.Function{"job walk": r.execute, "before hooks": r.before, "after hooks": r.after, "condition": r.cond, "context resolution": r.ctxFn, "output store": r.store} {
-		if r.callOf[f] == nil {
-			c.Und(rule, "runner.(*TaskRunner).Run:call("+name+")", r.run.Pos(), "Run does not call the %s function %s directly", name, an.Short(f))
-			return r
-		}
-	}
 	if r.compileCall == nil {
-		c.Und(rule, "runner.(*TaskRunner).Run:call(CompileTask)", r.run.Pos(), "Run does not call CompileTask")
+		missing += " CompileTask-call"
+	}
+	if missing != "" {
+		c.Und(rule, "runner:roles", r.run.Pos(), "cannot find by role in pkg/runner (reachable from TaskRunner.Run):%s", missing)
 		return r
 	}
 	r.ok = true
@@ -196,7 +139,7 @@ func resolveRunner(c *an.Ctx, rule string) *runnerRoles {
 // errOf returns the error value(s) of a call.
 func errOf(call *ssa.Call) []ssa.Value { return an.ErrValueOf(call) }
 
-// firstResult returns Extract #0 values of a tuple call.
+// extractOf returns the Extract #idx values of a tuple call.
 func extractOf(call *ssa.Call, idx int) []ssa.Value {
 	var out []ssa.Value
 	if refs := call.Referrers(); refs != nil {
